@@ -47,6 +47,68 @@ NEEDS = {
  'C20-m2': '[u8] tokenize_words raw-byte fast path (is_ascii_whitespace) vs str char::is_whitespace; needs diff_words over VT or non-ASCII whitespace (NBSP, U+2028, ...)',
  'C20-m3': 'unique() counts occurrences in a 1024-slot table indexed by a fixed-key hash: colliding unique items are dropped as anchors; deterministic, only visible under relabelling; needs ~30+ unique items with crossing anchors',
 }
+
+NEEDS.update({
+ 'C01-r2m1': 'LCS memory guard hands middles with > 2^20 table cells to Myers but the tail flush still emits the middle again; needs LCS and a trimmed middle of more than 1 048 576 cells (1100 x 1000)',
+ 'C01-r2m2': 'xdiff-style cost limit in find_middle_snake picks a clamped point outside the ranges; needs one sub-problem with edit distance >= 2048 and one side shorter than d (100 vs 2100 distinct items): panic',
+ 'C01-r2m3': 'same-object fast path in common_prefix_len tests range ends instead of starts; needs old and new to be the very same buffer with ranges sharing an end but not a start',
+ 'C03-r2m1': 'snake probes capped at 2048 items per round; needs a matching run longer than 4096 items that also matches on neighbouring diagonals (block of identical items)',
+ 'C03-r2m2': 'Algorithm::Lcs dispatch silently falls back to Patience above 2^20 table cells; needs > 1M cells and a unique item crossing a longer common subsequence of repeated items',
+ 'C03-r2m3': 'capture_diff_slices shortcut for disjoint value ranges uses <= instead of <; needs combined length >= 256, sorted pages of values whose boundary value occurs on both sides',
+ 'C04-r2m1': 'id type for the >100-token path chosen from the longer side length (u8/u16/u32); needs 101..=255 tokens on the longer side and >= 256 distinct tokens overall (or 65536 at the next step)',
+ 'C04-r2m2': '32-bit hash fingerprints used as token ids without equality confirmation; needs >100 tokens and a 32-bit DefaultHasher collision between an old and a new token (about 1e-7 per pair)',
+ 'C04-r2m3': 'relative deadline computed as Instant::now() + duration; needs timeout(Duration::MAX)-like values: panic in every diff_* call',
+ 'C05-r2m1': 'IdentifyDistinct::<u16> in the >100-line branch; needs more than 65 536 distinct lines',
+ 'C05-r2m2': 'buffered hunk writer writes lines >= 8192 bytes straight through without flushing the pending buffer; needs to_writer and a shown line of at least 8 KiB',
+ 'C05-r2m3': 'write instead of write_all for line bytes; needs an io::Write that accepts only part of a buffer per call',
+ 'C07-r2m1': 'timeout() resolved when the builder is configured, not when the diff starts; needs real time passing between timeout() and diff_*() (reused config)',
+ 'C07-r2m2': 'duration_to_deadline adds without overflow check; needs timeout(Duration::MAX)-like values: panic',
+ 'C07-r2m3': 'LCS early return on a missing table emits the common suffix at range.len()-suffix instead of range.end-suffix; needs LCS, an expiring deadline, a sub-range with non-zero start and a common suffix',
+ 'C08-r2m1': 'LCS deadline path returns without calling finish; needs LCS and a deadline expiring while the table is built',
+ 'C08-r2m2': 'Patience bails out through finish() after expiry: finish called repeatedly; needs Patience, an expired deadline and at least one common unique item',
+ 'C08-r2m3': 'LCS hands middles above 2^18 cells to Myers on the caller\'s hook: finish twice with an equal in between; needs an LCS middle of more than 262 144 cells',
+ 'C09-r2m1': 'Compact flushes every 1024 buffered ops: an insertion cannot slide across a chunk boundary; needs >= 1024 raw ops and that alignment (about 1% of large Myers/Patience inputs)',
+ 'C09-r2m2': 'step budget 4096 + 16*ops for the slide loops; needs one insertion that must slide more than ~4100 positions (periodic run of > 2100 items)',
+ 'C10-r2m1': 'Compact gets a replace() that buffers DiffOp::Replace which the clean-up does not know: unreachable!() panic; needs the reversed stacking Replace<Compact<_>> (or hand-fed replace calls) and an insert sliding next to a buffered Replace',
+ 'C10-r2m2': 'Compact::equal flushes before any Equal of >= 128 items; needs one equal() call of 128+ items directly preceded by an insertion repeating the run\'s first item',
+ 'C13-r2m1': 'ChangesIter::nth override takes the remaining deletes from the total old length; needs nth()/step_by() on an iterator over a Replace op that has already yielded an item',
+ 'C13-r2m2': 'AllChangesIter re-targets one ChangesIter per op without resetting the reported indices; needs a non-contiguous op list, only reachable through UnifiedDiffHunk::new(ops, ..)',
+ 'C14-r2m1': 'IdentifyDistinct::<u16> when each side has <= 65535 tokens; needs more than 65 535 distinct tokens in total',
+ 'C14-r2m2': 'IdentifyDistinct keys its map by the 64-bit hash of the item only; needs an item type whose lawful Hash is coarser than its Eq',
+ 'C15-r2m1': 'unique() keyed by the 64-bit hash of each item; needs items with a lawful but coarse Hash (two different items sharing a hash leave the unique list)',
+ 'C15-r2m2': 'UniqueItem equality also compares cached hashes; needs old and new element types whose hashes disagree for equal values',
+ 'C16-r2m1': 'Replace ops with more than 256 lines are expanded in two halves (Deletes, Inserts, Deletes, Inserts); needs a Replace op covering >= 257 lines',
+ 'C16-r2m2': 'word tokenisation of a line stops after 4096 bytes and the rest token starts at the limit instead of the last word end; needs an emphasised line longer than 4 KiB',
+ 'C17-r2m1': 'u16 token ids when each side has <= 65535 tokens; needs >= 65 536 distinct tokens overall',
+ 'C17-r2m2': 'saturating_sub in SliceRemapper::slice: slice_old(0..0) returns the first token instead of None/panic; outside the property (ops are never empty; clean HEAD panics there in debug)',
+ 'C18-r2m1': 'heap key narrowed to u16; needs two qualifying candidates whose ratios differ by less than 1/65535 (words of 128+ chars) with lexicographic order opposite to ratio order',
+ 'C18-r2m2': 'result vector pre-sized with n; needs a huge n (usize::MAX, the idiomatic "all matches"): capacity overflow panic',
+ 'C19-r2m1': 'block-wise prefix/suffix scan restarts each 256-block from 0: an equal run of length L costs L + L^2/512 comparisons; needs equal runs of tens of thousands of items',
+ 'C19-r2m2': 'cheap fixed hasher in unique() mixing only length and the first 16 bytes of a key; needs many distinct string items of equal length sharing their first 16 bytes',
+ 'C20-r2m1': 'UniqueItem equality reduced to a 32-bit fixed-key fingerprint; needs a 32-bit hash collision between an old-unique and a different new-unique item (deterministic; visible only under relabelling)',
+ 'C20-r2m2': 'randomly keyed Bloom prefilter of unpaired unique items, skipped below 1024 unique items per side; needs Patience and >= 1024 unique items on a side',
+})
+
+NEEDS.update({
+ 'C02-r2m1': 'LCS memory guard above 2^26 table cells emits prefix, one delete and one insert and returns without the common suffix; needs Lcs, a middle of more than 8192 x 8192 items and a common suffix (cheap only with an expired deadline)',
+ 'C02-r2m2': '32-bit FNV-1a hashes used as token ids in the >100-token path; needs two distinct tokens with the same FNV-1a-32 value that get compared (about 2^-32 per pair)',
+ 'C06-r2m1': '[u8] tokenize_words classifies whitespace on raw UTF-8 byte patterns with an off-by-one range: U+200B ZERO WIDTH SPACE counts as whitespace; needs the bytes E2 80 8B',
+ 'C06-r2m2': 'shared is_whitespace_char lookup truncates the plane bits: supplementary characters whose low 16 bits are a whitespace code point (U+12000, U+2000B, ...) count as whitespace in str and [u8] alike',
+ 'C11-r2m1': 'compaction slide step bounded by 1024 but the following Equal still grows by the full common suffix: overlapping ops; needs an insert of more than 1024 identical items into a run of the same item',
+ 'C11-r2m2': 'LCS hands middles above 2^22 table cells to Myers which calls finish itself: Compact replays its buffer twice, every op captured twice; needs an LCS middle of more than ~2050 x 2050 items',
+ 'C12-r2m1': 'radius clamped to u32::MAX; needs n above 2^32-1 and an equal run longer than that (synthetic op lists only)',
+ 'C12-r2m2': 'TextDiff::grouped_ops returns no groups when ratio() >= 1.0; the f32 ratio rounds to 1.0 only for about 8.4 million tokens per side with a single changed token',
+})
+EXTRA = {
+ 'C02-r2m1': 'not reachable by C02 (an exact LCS diff of 8192 x 8192 items is infeasible); caught by C07 (huge-expired stage)',
+ 'C02-r2m2': 'NOT CAUGHT: needs a 32-bit hash collision between two generated tokens (probability about 2^-32 per compared pair); outside what generated-input search can reach without knowing the hash',
+ 'C04-r2m2': 'NOT CAUGHT: same as C02-r2m2 (32-bit DefaultHasher fingerprint collision)',
+ 'C04-r2m3': 'a timeout-overflow panic; C04 does not configure timeouts, caught by C07 (wall-clock stage)',
+ 'C11-r2m2': 'quick tier does not build LCS tables of 4 M cells; caught by the thorough tier of C01 (large stage, 2100 x 2100) as a double finish',
+ 'C12-r2m2': 'NOT CAUGHT: needs about 8.4 million tokens per side (0.5 GB, several seconds per case); documented as out of the explored bounds',
+ 'C17-r2m2': 'NOT CAUGHT and not claimed: slice_old(0..0) is outside the property (ops are never empty; the unchanged code panics there in debug builds)',
+}
+
 res = collections.defaultdict(dict)
 for l in open(os.path.join(ROOT,'work/seed-results.tsv')):
     f = l.rstrip('\n').split('\t')
@@ -63,7 +125,7 @@ for name in sorted(os.listdir(os.path.join(ROOT,'seeded'))):
     meta = {
         'name': name,
         'breaks_property': prop,
-        'origin': 'written by a fresh sub-agent that was given only the text of the property and its own scratch worktree of /repo (nothing from /verif)',
+        'origin': ('round 2 (adversarial): written by a fresh sub-agent that was given the text of the property, the ideas already used in round 1, and a description of the INPUT SPACE my generators covered at that time, and was asked for changes that survive it' if '-r2' in name else 'round 1: written by a fresh sub-agent that was given only the text of the property and its own scratch worktree of /repo (nothing from /verif)'),
         'needs_to_manifest': NEEDS.get(name, ''),
         'validated_by_me': 'tools/validate_seed.sh: patch applies to /repo HEAD in a scratch worktree; `cargo test --workspace --no-fail-fast --offline` passes with it (41 tests); demo.rs (as tests/demo.rs, `cargo test --offline --all-features --test demo`) fails with the patch and passes without',
         'ran_against_checks': 'tools/run_seed.sh %s  (git -C /repo apply patch.diff; bin/check <ID> quick for all 20; git -C /repo checkout -- .)' % name,
@@ -71,9 +133,10 @@ for name in sorted(os.listdir(os.path.join(ROOT,'seeded'))):
         'inconclusive': inconcl,
         'primary_check_catches': prop in caught,
         'primary_message': r.get(prop, (0,''))[1][:400],
+        'note': EXTRA.get(name, ''),
     }
     json.dump(meta, open(os.path.join(d,'meta.json'),'w'), indent=1)
-    rows.append((name, prop, prop in caught, caught, NEEDS.get(name,'')))
+    rows.append((name, prop, prop in caught, caught, NEEDS.get(name,'') + ((' — ' + EXTRA[name]) if name in EXTRA else '')))
 with open(os.path.join(ROOT,'seeded','RESULTS.md'),'w') as f:
     f.write('# Seeded changes vs quick checks\n\nEach change compiles, passes the 41 existing tests and breaks the named property (validated in a scratch worktree). "caught by" lists every quick check (VERIF_SEED=1) that reported a VIOLATION with the change applied to /repo.\n\n| change | breaks | primary check catches | caught by | needs |\n|---|---|---|---|---|\n')
     for name, prop, ok, caught, needs in rows:
